@@ -12,6 +12,7 @@ ENGINES = {
     "csim": dict(pkg="./sims/csim", bin="csim.test", test="^TestWorker$"),
     "valsetsim": dict(pkg="./sims/valsetsim", bin="valsetsim.test", test="^TestWorker$"),
     "signersim": dict(pkg="./sims/signersim", bin="signersim.test", test="^TestWorker$"),
+    "partsim": dict(pkg="./sims/partsim", bin="partsim.test", test="^TestWorker$"),
 }
 
 # property: list of parts (engine, quick_runs, share of the thorough time budget); thorough budget in seconds
@@ -24,10 +25,13 @@ PARTS = {
     "C15": [("csim", 280, 1.0)],
     "C16": [("csim", 200, 0.7), ("valsetsim", 4000, 0.3)],
     "C07": [("csim", 280, 1.0)],
+    "C08": [("csim", 280, 1.0)],
+    "C17": [("partsim", 6000, 1.0)],
     "C03": [("signersim", 1200, 0.5), ("csim", 120, 0.5)],
 }
 
 REAL = {
+    "partsim": ["gemmill/types PartSet/Part (NewPartSetFromData, NewPartSetFromHeader, AddPart, GetReader)", "go-merkle simple tree and proofs", "go-hash"],
     "signersim": ["gemmill/types PrivValidator (SignVote, SignProposal, signBytesHRS, save, LoadPrivValidator)", "go-common WriteFileAtomic on a real file", "go-wire JSON of the signer file"],
     "valsetsim": ["gemmill/types ValidatorSet/Validator (IncrementAccum, Copy, Add/Update/Remove, Proposer, Hash)", "go-wire binary persistence round trip", "go-common heap"],
     "csim": ["gemmill/consensus/pbft (state machine, reactor Receive, WAL, replay, real timeout ticker behind a gate, height vote set)",
@@ -35,6 +39,7 @@ REAL = {
              "gemmill/blockchain store", "gemmill/mempool", "go-wire, go-merkle, go-autofile (real files), go-events"],
 }
 STUB = {
+    "partsim": ["no node: sender and receiver part sets with an adversarial network in between (reorder, duplicate, one mutation per delivered copy)"],
     "signersim": ["no node, no clock, no goroutines: the signer is driven directly; process death = panic out of the fault point before a file operation, everything written before it stays"],
     "valsetsim": ["no node, no clock: replicas are validator-set objects driven through one history by different paths"],
     "csim": ["LevelDB -> simdisk ordered map with write counter (crash = process death before write k)",
@@ -109,7 +114,16 @@ def run_workers(binp, test, prop, seed, nruns, budget_s, outdir, extra_env=None,
             results.extend(got)
             if p.returncode != 0 and not st.get("killed"):
                 tail = open(st["errp"]).read()[-3000:]
-                failures.append(dict(job=st["job"], rc=p.returncode, got=len(got), stderr=tail, kind="crash"))
+                full = open(st["errp"]).read()
+                fatal = None
+                if "fatal error:" in full:
+                    # the Go runtime aborted the whole process (out of memory, concurrent map write, ...)
+                    fl = [l for l in full.splitlines() if l.startswith("fatal error:")][0]
+                    frames = [l.strip() for l in full.splitlines() if "dappledger/AnnChain/" in l and "(" in l and not l.startswith("\t")]
+                    frame = frames[0].split("/")[-1].split("(0x")[0] if frames else "?"
+                    seedl = [l for l in full.splitlines() if l.startswith("run ")]
+                    fatal = dict(msg=fl, frame=frame, seed=int(seedl[-1].split()[3]) if seedl else 0, index=int(seedl[-1].split()[1]) if seedl else -1)
+                failures.append(dict(job=st["job"], rc=p.returncode, got=len(got), stderr=tail, kind="crash", fatal=fatal))
                 # a crashed worker (a panic that escaped the registry) loses only the run it was in
                 idx = last_run_index(st["errp"])
                 if idx is not None and idx + 1 < st["job"][1]:
@@ -225,6 +239,24 @@ def report(prop, results, failures, determinism):
     rc = 0
     os.makedirs(os.path.join(VERIF, "replays"), exist_ok=True)
     reported = set()
+    for f in list(failures):
+        ft = f.get("fatal")
+        if ft and prop in ("C08", "C12"):
+            # the simulated node took the whole process down: the strongest form of "crashed by peer input"
+            failures.remove(f)
+            k = ("process-aborted", ft["frame"])
+            if (prop,) + k in known_open:
+                continue
+            if k in reported:
+                continue
+            reported.add(k)
+            path = os.path.join(VERIF, "replays", "%s-process-aborted-%s.json" % (prop, ft["seed"]))
+            json.dump(dict(engine=f.get("engine", "csim"), property=prop, seed=ft["seed"], from_seed=True, index=ft["index"],
+                           violation=dict(property=prop, oracle="process-aborted", key=ft["frame"], msg=ft["msg"]),
+                           note="the run aborts the Go runtime; replay regenerates the run from its seed"), open(path, "w"), indent=1)
+            print("VIOLATION property=%s replay=%s" % (prop, path))
+            print("  oracle=process-aborted key=%s seed=%s: %s in %s" % (ft["frame"], ft["seed"], ft["msg"], ft["frame"]))
+            rc = 1
     for r, v in new:
         k = (v["oracle"], v.get("key", ""))
         if k in reported:
@@ -295,6 +327,8 @@ def check_parts(prop, tier, seed, parts, level="exploration", rule=None, extra_e
                                             chunk=None if tier == "quick" else 40)
             for r in results:
                 r["engine"] = engine
+            for f in failures:
+                f["engine"] = engine
             dets[engine] = determinism_recheck(binp, e["test"], prop, seed, results, outdir, extra_env=extra_env)
             per_engine[engine] = len(results)
             allres += results
@@ -353,6 +387,17 @@ def replay(path):
         e = ENGINES[engine]
         binp = drv.build_test(s, e["pkg"], e["bin"])
         out = os.path.join(s, "replay-out.json")
+        if rp.get("from_seed"):
+            # regenerate the run from its seed; the violation is the abort of the process itself
+            env = dict(drv.ENV, VERIF_MODE="batch", VERIF_PROP=rp["property"], VERIF_EXACT_SEED=str(rp["seed"]), VERIF_FROM="0", VERIF_TO="1",
+                       VERIF_OUT=os.path.join(s, "seed-out.jsonl"), VERIF_KNOWN=",".join(known_keys()))
+            pr = subprocess.run([binp, "-test.run", e["test"], "-test.timeout", "0"], env=env, stdout=subprocess.DEVNULL, stderr=subprocess.PIPE, cwd=s, text=True)
+            if pr.returncode != 0 and "fatal error:" in pr.stderr:
+                print("VIOLATION property=%s replay=%s" % (rp.get("property"), path))
+                print("  reproduced: " + [l for l in pr.stderr.splitlines() if l.startswith("fatal error:")][0])
+                return 1
+            print("not reproduced (the process ran to completion)")
+            return 0
         env = dict(drv.ENV, VERIF_MODE="replay", VERIF_REPLAY=os.path.abspath(path), VERIF_OUT=out)
         subprocess.run([binp, "-test.run", e["test"], "-test.timeout", "0"], env=env, stdout=subprocess.DEVNULL, stderr=subprocess.DEVNULL, cwd=s)
         if not os.path.exists(out):
